@@ -511,6 +511,21 @@ impl MetadataClient for LocalMetadataClient {
         Ok(original_count - leases.leases.len())
     }
 
+    async fn active_split_new_shards(&self) -> Result<Vec<String>> {
+        use crate::sharding::SplitPhase;
+        Ok(self
+            .split_states
+            .iter()
+            .filter(|entry| {
+                matches!(
+                    entry.value().phase,
+                    SplitPhase::DualWrite | SplitPhase::Backfill
+                )
+            })
+            .flat_map(|entry| entry.value().new_shards.clone())
+            .collect())
+    }
+
     async fn has_active_split(&self) -> Result<bool> {
         use crate::sharding::SplitPhase;
         for entry in self.split_states.iter() {
